@@ -60,7 +60,7 @@ func verifRefCbcEnc(key, iv, pt []byte) []byte {
 //verif:maxlen data=60000
 //verif:unroll (*message.IKEPayloadContainer).Encode#loop1 2 assert
 //verif:unroll security/lib.PKCS7Padding#loop1 16 assert
-func lemma_C06_format(role bool, integSel, encrSel uint8, ai, ar, ei, er []byte, ispi, rspi uint64, exch, flags uint8, mid uint32, data, junk []byte) {
+func lemma_C06_format(role bool, integSel, encrSel uint8, ai, ar, ei, er []byte, ispi, rspi uint64, exch, flags, staleNext uint8, mid uint32, data, junk []byte) {
 	sa := verifSA(integSel, encrSel, ai, ar, ei, er)
 	verifHistory(sa, junk) // C17: an SA object with any history of earlier operations
 	ka, ke := ar, er
@@ -70,28 +70,30 @@ func lemma_C06_format(role bool, integSel, encrSel uint8, ai, ar, ei, er []byte,
 	ka, ke = append([]byte{}, ka...), append([]byte{}, ke...)
 	d0 := append([]byte{}, data...)
 	m := new(message.IKEMessage)
-	m.IKEHeader = &message.IKEHeader{InitiatorSPI: ispi, ResponderSPI: rspi, MajorVersion: 2, ExchangeType: exch, Flags: flags, MessageID: mid}
+	// (the header's next-payload field is whatever an earlier use of the message object
+	// left there: it is an output of encoding, never an input)
+	m.IKEHeader = &message.IKEHeader{InitiatorSPI: ispi, ResponderSPI: rspi, MajorVersion: 2, ExchangeType: exch, Flags: flags, MessageID: mid, NextPayload: staleNext}
 	m.Payloads.BuildNonce(data)
 	out, err := EncodeEncrypt(m, sa, message.Role(role))
 	if verifRandFailed() {
 		verifAssert(err != nil, "C06/failing-random-source-gives-an-error")
 		return
 	}
-	verifAssert(err == nil, "C06/protect-succeeds")
+	verifAssert(err == nil, "C01+C06/protect-succeeds")
 	_, icv := verifIntegRef(integSel)
 	np := 4 + len(d0)          // inner payloads: one generic header + nonce data
 	k16 := (np/16 + 1) * 16 // plaintext | padding | pad length: next multiple of 16 above np
 	n := len(out)
-	verifAssert(n == 28+4+16+k16+icv, "C06/datagram-size")
-	verifAssert(out[16] == 46 && int(uint32(out[24])<<24|uint32(out[25])<<16|uint32(out[26])<<8|uint32(out[27])) == n, "C06/header-names-SK-and-states-the-final-length")
-	verifAssert(out[17] == 0x20 && out[18] == exch && out[19] == flags, "C06/header-fields-in-clear")
-	verifAssert(out[28] == 40 && out[29] == 0 && int(out[30])<<8|int(out[31]) == n-28, "C06/SK-header-names-first-inner-payload-and-states-the-final-length")
+	verifAssert(n == 28+4+16+k16+icv, "C01+C06/datagram-size")
+	verifAssert(out[16] == 46 && int(uint32(out[24])<<24|uint32(out[25])<<16|uint32(out[26])<<8|uint32(out[27])) == n, "C01+C06/header-names-SK-and-states-the-final-length")
+	verifAssert(out[17] == 0x20 && out[18] == exch && out[19] == flags, "C01+C06/header-fields-in-clear")
+	verifAssert(out[28] == 40 && out[29] == 0 && int(out[30])<<8|int(out[31]) == n-28, "C01+C06/SK-header-names-first-inner-payload-and-states-the-final-length")
 	iv, ct, tag := out[32:48], out[48:n-icv], out[n-icv:]
 	verifAssert(verifRandDrawn(iv), "C06/iv-is-a-fresh-draw")
 	pt := verifRefCbcDec(ke, iv, ct)
-	verifAssert(pt[0] == 0 && pt[1] == 0 && int(pt[2])<<8|int(pt[3]) == np && verifBytesEq(pt[4:np], d0), "C06/body-is-the-cbc-encryption-of-the-inner-payloads-under-the-senders-key")
-	verifAssert(int(pt[k16-1]) == k16-np-1, "C06/pad-length-octet")
-	verifAssert(verifBytesEq(tag, verifRefTag(integSel, ka, out[:n-icv])), "C06/checksum-is-the-truncated-hmac-over-everything-before-it-under-the-senders-key")
+	verifAssert(pt[0] == 0 && pt[1] == 0 && int(pt[2])<<8|int(pt[3]) == np && verifBytesEq(pt[4:np], d0), "C01+C06/body-is-the-cbc-encryption-of-the-inner-payloads-under-the-senders-key")
+	verifAssert(int(pt[k16-1]) == k16-np-1, "C01+C06/pad-length-octet")
+	verifAssert(verifBytesEq(tag, verifRefTag(integSel, ka, out[:n-icv])), "C01+C06/checksum-is-the-truncated-hmac-over-everything-before-it-under-the-senders-key")
 	// C17: this is the datagram a freshly built SA holding the same keys produces (same
 	// layout, keys and MAC; IV and padding are per-call draws), so a fresh peer accepts it
 	// (lemma_C06_accept)
